@@ -52,6 +52,24 @@ theorem C04_fused_pair_mem_ge (o1 o2 : OpRec) :
   simp only [fusePairRec, hgen, if_true]
   omega
 
+/-- (d'') exact value: the fused op's projected memory is the larger of the successor's own and the modelled peak of
+running the fused predecessors back to back (`peak_projected_mem`). -/
+theorem C04_fused_mem_exact (o : OpRec) (preds : List (Option OpRec)) :
+    ((fuseRec o preds).projMem : Int) = max (o.projMem : Int) (peakProjected (preds.filterMap id)) := by
+  have hgen : Generated.fusedMemIsMax = true := by decide
+  simp only [fuseRec, hgen, if_true]
+  have := peak_nonneg (preds.filterMap id)
+  omega
+
+/-- (e) End to end: a plan that is admitted unoptimized is still admitted — and therefore executed, not refused —
+after the default optimizer ran with any limits (no forced fusion). -/
+theorem C04_optimized_plan_runs {E W : Type} (d d' : DagRec) (order : List String) (ps : Params)
+    (run : DagRec → List E × List W)
+    (hal : ps.always = none) (hadm : admits d = true) (h : optimize d order ps = some d') :
+    execute d' run = Outcome.ran (run d').1 (run d').2 := by
+  have hfit := optimize_fits order d d' ps hal ((admit_iff d).mp hadm) h
+  exact C04_execute_admits d' run hfit
+
 /-! Non-vacuity -/
 
 def exOp (n : String) (src outs : List String) (pm : Nat) : OpRec :=
